@@ -174,6 +174,13 @@ class CGraph:
                 raise Exception(err_str)
             # print self
 
+        # The pullback of an in-place write restores the overwritten entries.
+        # Re-apply the writes in recording order, so that the forward values
+        # are intact and the graph can answer further reverse sweeps.
+        for f in self.functionList:
+            if is_set(f.setitem):
+                f.args[0].x[f.setitem[0]] = f.args[2].x
+
     def function(self, x_list):
         """ computes the function of a function y = f(x_list), where y is a scalar
         and x_list is a list or tuple of input arguments.
